@@ -1,6 +1,5 @@
 from __future__ import annotations
 
-from itertools import starmap
 from typing import Any
 
 from xsdata.exceptions import ParserError
@@ -358,7 +357,7 @@ class ElementNode(XmlNode):
         Returns:
             Always true, since wildcard fields can absorb any value.
         """
-        value = self.prepare_generic_value(qname, value)
+        value = self.prepare_generic_value(qname, value, var)
 
         if var.list_element:
             items = params.get(var.name)
@@ -388,15 +387,25 @@ class ElementNode(XmlNode):
             objects: The list of intermediate parsed objects
         """
         pos = self.position
-        params[var.name] = list(starmap(self.prepare_generic_value, objects[pos:]))
+        params[var.name] = [
+            self.prepare_generic_value(qname, value, var)
+            for qname, value in objects[pos:]
+        ]
         del objects[pos:]
 
-    def prepare_generic_value(self, qname: str | None, value: Any) -> Any:
+    def prepare_generic_value(
+        self,
+        qname: str | None,
+        value: Any,
+        var: XmlVar | None = None,
+    ) -> Any:
         """Wrap primitive text nodes in a generic element.
 
         Args:
             qname: The qualified name of the element
             value: The parsed object
+            var: The wildcard var instance, its choices may
+                prescribe the format of the value
 
         Returns:
             The original parsed value if it's a data class, or
@@ -404,7 +413,10 @@ class ElementNode(XmlNode):
         """
         if qname and not self.context.class_type.is_model(value):
             any_factory = self.context.class_type.any_element
-            value = any_factory(qname=qname, text=converter.serialize(value))
+            choice = var.find_choice(qname) if var else None
+            fmt = choice.format if choice else None
+            text = converter.serialize(value, format=fmt)
+            value = any_factory(qname=qname, text=text)
 
         return value
 
